@@ -136,6 +136,8 @@ if __name__ == "__main__":
         ingest(sys.argv[2], sys.argv[3:] or ["1", "2", "3"], root="/tmp/mut4", tag="r4.")
     elif cmd == "ingest5":
         ingest(sys.argv[2], sys.argv[3:] or ["1", "2", "3"], root="/tmp/mut5", tag="r5.")
+    elif cmd == "ingest6":
+        ingest(sys.argv[2], sys.argv[3:] or ["1", "2", "3"], root="/tmp/mut6", tag="r6.")
     elif cmd == "eval":
         a = [x for x in sys.argv[2:] if x != "--all"]
         evaluate(a, "--all" in sys.argv)
